@@ -1,4 +1,5 @@
-\* C12 design check A: one context, every id, every container form, repaired forms.
+\* C12 negative config: WithNonce forgets the registry (fresh context value). Only the property named here is checked
+\* (the check also runs it with MiddlewareNeverInlined): TLC must reject it through that property.
 CONSTANTS
   Ctxs <- Ctx1
   Modes = {"plain", "mw", "fresh"}
@@ -10,13 +11,13 @@ CONSTANTS
   OnSeqs <- OnSeqsFull
   ClassExprs <- ClassExprsFull
   Repaired = {"KvCompName", "SliceKVRules"}
-  Variant = "asCoded"
+  Variant = "nonceForgets"
   MaxNonces = 1
   MaxSteps = 99
   EmitEdges = FALSE
 INIT Init
 NEXT Next
 VIEW View
-INVARIANTS TypeOK RegistryMatchesDocument
-PROPERTIES AtMostOnce DefBeforeFirstUse EveryUseHasCallOrName MiddlewareNeverInlined StylesheetServesRegistered ContextsIndependent NonceKeepsRegistry
+INVARIANTS TypeOK
+PROPERTIES AtMostOnce
 CHECK_DEADLOCK FALSE
